@@ -1,0 +1,22 @@
+//go:build !verif
+
+package pow
+
+// verification hook events (see hook_verif.go); without the "verif" build tag the hook is an inlined no-op
+const (
+	evSpawn = iota
+	evWatcherCtx
+	evWatcherClosing
+	evBatch
+	evSawDone
+	evStoreDone
+	evSend
+	evWgDone
+	evWaitReturned
+	evCloseResults
+	evCloseClosing
+	evRecv
+	evRecvNone
+)
+
+func verifEvent(kind int, worker uint64, value uint64) {}
